@@ -277,15 +277,30 @@ class GhostSolver:
 
     def pop(self, num=1):
         if isinstance(num, SymInt) or sym.is_sym(self.scope_offset):
-            # only "pop everything pushed since loop entry" is modelled for a symbolic count
             p = current()
             want = sym._term(self.pushed_count())
-            if p.engine.feasible(p.pc + [sym._term(num) != want]):
-                raise sym.Unsupported(f"pop({num}) is not provably the number of scopes pushed ({want})")
+            nt = sym._term(num)
+            if not p.engine.feasible(p.pc + [nt != want]):
+                # everything pushed since loop entry is popped
+                del self.frames[self.base_len :]
+                self.scope_offset = 0
+                self.n_pop += 1
+                self.history.append(("pop-all",))
+                return
+            if p.engine.feasible(p.pc + [nt > want]):
+                raise z3.Z3Exception("index out of bounds")  # popping more scopes than were pushed
+            # fewer scopes popped than pushed: of what stays on the stack nothing is known but that it is some
+            # constraint on the same unknowns -- an arbitrary predicate over the constants of the summary
+            rest = mk(want - nt)
+            cs = list(consts_of([f for fr in self.frames[self.base_len :] for f, _ in fr]).values())
+            cs = [c for c in cs if not is_param_const(c.decl().name())]
+            R = z3.Function(p.fresh_name("Remaining"), *[c.sort() for c in cs], z3.BoolSort()) if cs else None
+            opaque = R(*cs) if R is not None else z3.Bool(p.fresh_name("Remaining"))
             del self.frames[self.base_len :]
-            self.scope_offset = 0
+            self.frames.append([(opaque, None)])
+            self.scope_offset = rest - 1
             self.n_pop += 1
-            self.history.append(("pop-all",))
+            self.history.append(("pop-some",))
             return
         for _ in range(num):
             if len(self.frames) <= 1:
